@@ -47,6 +47,7 @@ pub fn derived_json(bytes: &[u8]) -> Option<Value> {
     let name_end = bytes[10..76].iter().position(|&c| c == 0).unwrap_or(66);
     Some(json!({
         "tags": h.entries.iter().map(|e| e.tag).filter(|t| *t != 63).collect::<Vec<_>>(),
+        "sig_tags": lay.sig.entries.iter().map(|e| e.tag).filter(|t| *t != 62).collect::<Vec<_>>(),
         "strs": strs,
         "i18ntable": h.strings(bytes, 100).unwrap_or_default(),
         "size": match h.u32s(bytes, 1009) { Some(v) if v.len() == 1 => json!({"some": u32d(v[0])}), _ => json!({"none": true}) },
